@@ -139,6 +139,10 @@ def gen(seed, prop, k, mode):
                 ctors.append("%s { %s }" % (path, ", ".join("f%d: %s" % (i, v) for i, v in enumerate(c))))
             else:
                 ctors.append("%s(%s)" % (path, ", ".join(c)))
+    return gen_from(prop, "w%d" % k, text_e, text_d, ctors, traits, kind, sorted({f[0] for f in used}))
+
+
+def gen_from(prop, cid, text_e, text_d, ctors, traits, kind, types):
     n = len(ctors)
     arms = "".join("            %d => %s,\n" % (i, c) for i, c in enumerate(ctors))
     glue = ("pub static DATA: [u8; 4] = [1, 2, 3, 4];\npub static TEXT: &str = \"abcd\";\npub static R0: &u8 = &7;\npub static R1: &u8 = &9;\n"
@@ -169,17 +173,30 @@ def gen(seed, prop, k, mode):
     drive = ("        const N: usize = %d;\n        let mut bad = 0usize; let mut first = String::new();\n"
              "        for i in 0..N {\n            let (a, x) = (mk!(e, i), mk!(d, i));\n            %s\n"
              "            for j in 0..N {\n                let (a, x) = (mk!(e, i), mk!(d, i)); let (b, y) = (mk!(e, j), mk!(d, j));\n                %s\n            }\n        }\n"
-             "        %sbegin(); %sobs(\"w%d\", \"twin\", N, -1, &format!(\"{}\\t{}\", bad, %shex(&first)));"
-             % (n, "\n            ".join(single), "\n                ".join(checks), RT, RT, k, RT))
-    c = BH.Case("w%d" % k, None, text_e, [], glue=glue, drive=drive,
-                info={"twin": True, "traits": traits, "n": n, "kind": kind, "types": sorted({f[0] for f in used})})
+             "        %sbegin(); %sobs(\"%s\", \"twin\", N, -1, &format!(\"{}\\t{}\", bad, %shex(&first)));"
+             % (n, "\n            ".join(single), "\n                ".join(checks), RT, RT, cid, RT))
+    c = BH.Case(cid, None, text_e, [], glue=glue, drive=drive,
+                info={"twin": True, "traits": traits, "n": n, "kind": kind, "types": types})
     c.module = lambda c=c: H.module(c.cid, "#![allow(unused_variables, unused_mut, unused_macros, unreachable_patterns, clippy::all)]\n" + c.glue +
                                     "pub fn run() {\n    %sguarded(\"%s\", || {\n%s\n    });\n}\n" % (RT, c.cid, c.drive))
     return c
 
 
+def big_enum(prop, mode):
+    """an enum with 300 unit variants and one with data in variant 299: variant indices beyond one byte"""
+    traits = [t for t in MODES[mode]]
+    n = 300
+    vs = "".join("    V%d,\n" % i for i in range(n - 1)) + "    V%d(u8),\n" % (n - 1)
+    text_e = "#[derive(::educe::Educe)]\n#[educe(%s)]\npub enum Ty {\n%s}\n" % (", ".join(traits), vs)
+    text_d = "#[derive(%s)]\npub enum Ty {\n%s}\n" % (", ".join(traits), vs)
+    picks = [0, 1, 2, 127, 128, 129, 254, 255, 256, 257, 298]
+    ctors = ["$m::Ty::V%d" % i for i in picks] + ["$m::Ty::V299(0)", "$m::Ty::V299(1)"]
+    c = gen_from(prop, "wbig", text_e, text_d, ctors, traits, "enum", ["u8"])
+    return c
+
+
 def cases(seed, prop, n, mode):
-    out = []
+    out = [big_enum(prop, mode)]
     for k in range(n):
         c = gen(seed, prop, k, mode)
         if c is not None:
